@@ -372,9 +372,14 @@ class ParseContext(ParserEngine):
     ) -> Any:
         with self.statescope():
             self.cst = []
+            first = False
             with self.optional():
                 self.expcall(exp)
                 self.cst = [self.cst]
+                first = True
+            if first:
+                # NOTE: outside the optional, so that a committed failure (a cut in
+                #   an iteration, or the separator of a join) fails the repetition
                 self.repeat(exp, prefix=sep, omitsep=omitsep)
             self.cst = cst = closedlist(self.cst)
             return cst
